@@ -142,6 +142,7 @@ class GhostWork:
 class DeadlineUnit:
     kind = "deadline"
     name = "ctparse._ctparse.deadline-checks"
+    qualnames = ["ctparse._ctparse", "ctparse._regex_stack"]
     props = {"C13"}
     cost = 1
 
